@@ -7,7 +7,7 @@ from gen import (ACTION_NAMES, AMOUNTS, BPS, CCTP_DOMAINS, CHANNELS, DENOMS, PRO
 from proto import (AUTHORITY, CCTP_URL, DUST, DUST_BYTES, FEE_URL, HYP_URL, IMPL, INT_URL, ORB, ORB_BYTES, VERIF, Proc, addr, b32, b64, cctp_fwd,
                    fee_action, ftpd, hx, hyp_fwd, int_fwd, kv, memo, msg_line, orb_pkt, pkt_line, unhx)
 
-_HYP_CACHE = os.path.join(VERIF, ".cache", "hyp.json")
+_HYP_CACHE = os.path.join(os.environ.get("VERIF_CACHE", os.path.join(VERIF, ".cache")), "hyp.json")
 
 
 def hyp_tokens(n=2):
@@ -83,6 +83,7 @@ def fee_lists(r, n_random=400):
     bad_entries = [(good, "b", 0), (good, "b", 10001), (good, "b", 2 ** 32 - 1), (good, "a", 0), (good, "a", -1), (good, "a", "x"),
                    (good, "a", ""), (good, "a", "+5"), (good, "a", "007"), (good, "a", "0x10"), (good, "a", " 5"), (good, "a", "1_0"), (good, "n", 0),
                    ("", "b", 1), ("noble1xyz", "b", 1), (good.upper(), "b", 1), ("cosmos1qyqszqgpqyqszqgpqyqszqgpqyqszqgpjnp7du", "b", 1),
+                   ("", "a", 5), ("noble1xyz", "a", 5), (good.upper(), "a", 5), ("cosmos1qyqszqgpqyqszqgpqyqszqgpqyqszqgpjnp7du", "a", 5), (" ", "a", 5), (good + "x", "a", 5),
                    (good, "a", 2 ** 256), (good, "a", 2 ** 256 - 1), (good, "a", 2 ** 255)]
     for e in bad_entries:
         lines.append(fee_list_line(10 ** 6, "uusdc", [e]))
